@@ -291,11 +291,13 @@ class StreamingHandler(AsyncCallbackHandler, AsyncIterator):
         **kwargs: Any,
     ) -> None:
         """Run on new LLM token. Only available when streaming is enabled."""
-        # If the first token is an empty one, we ignore.
-        if self.first_token:
-            self.first_token = False
-            if token == "":
-                return
+        # Empty tokens carry no text and "" is reserved as the end-of-stream marker,
+        # so they are ignored. Not all LLMs pass the chunk object, the token is used then.
+        self.first_token = False
+        if chunk is None:
+            chunk = token
+        if token == "" or chunk == "" or getattr(chunk, "text", None) == "":
+            return
 
         await self.push_chunk(chunk)
 
